@@ -13,7 +13,6 @@ package expr
 //@   opt maprange deterministic
 //@   requires ut != nil
 //@   let att = ptr(*AttributeExpr, old(select(utAttr, ut)))
-//@   requires select(utAttr, ut) > 0
 //@   ensures* shape.names.only: ignoreFields ==> result != nil && load(result) == userTypePrefix + utNameOf(ut)
 //@   ensures* shape.no.tags: !ignoreFields && ignoreTags ==> result != nil && load(result) == userTypePrefix + ite(!ignoreNames, utNameOf(ut), "") + userTypeHashPrefix + hashSpec(att.Type, ignoreFields, ignoreNames, ignoreTags)
 
@@ -38,7 +37,6 @@ package expr
 //@   params u ignoreFields ignoreNames ignoreTags seen
 //@   locals h
 //@   property C13
-//@   requires u != nil
 //@   sortkey 1 e: e.Name
 //@   loop 1 invariant* sorted.input: forall i int, j int :: 0 <= i && i < j && j < len(ranged(1)) ==> !(ranged(1)[j].Name < ranged(1)[i].Name)
 //@   loop 1 invariant* all.alternatives: len(ranged(1)) == len(old(u.Values))
@@ -201,10 +199,39 @@ package expr
 //@ smt (declare-fun utNameOf (Iface) String)
 //@ ghost var utAttr (Array Iface Int)
 //@ smt (declare-fun utIDOf (Iface) String)
+//@ smt (declare-fun kindOf (Iface) Int)
+//@ iface goa.design/goa/v3/expr.DataType.Kind
+//@   params dt
+//@   ensures result == kindOf(dt)
+//@   modifies nothing
 //@ func hash
 //@   params dt ignoreFields ignoreNames ignoreTags seen
-//@   trusted
-//@   ensures result != nil && load(result) == hashSpec(dt, ignoreFields, ignoreNames, ignoreTags)
+//@   property C13
+//   -- the one clause of the dispatcher that stays ASSUMED: the result is a function of the type and the flags
+//@   assumed functional: result != nil && load(result) == hashSpec(dt, ignoreFields, ignoreNames, ignoreTags)
+//   -- what is checked on its body: a primitive hashes to its name; every composite kind is handed to the hasher
+//   -- of that kind with the caller's own flags and seen-set (the same flags reach every level of the type)
+//@   proves* primitive: kindOf(dt) != ArrayKind && kindOf(dt) != MapKind && kindOf(dt) != UnionKind && kindOf(dt) != UserTypeKind && kindOf(dt) != ResultTypeKind && kindOf(dt) != ObjectKind ==> result != nil && load(result) == utNameOf(dt)
+//@   callspec hashArray params a f n t s
+//@       requires* array.same.flags: a == dt.(*Array) && f == ignoreFields && n == ignoreNames && t == ignoreTags && kindOf(dt) == ArrayKind && (seen != nil ==> s == seen)
+//@       ensures result != nil
+//@       modifies mapOf(s)
+//@   callspec hashMap params a f n t s
+//@       requires* map.same.flags: a == dt.(*Map) && f == ignoreFields && n == ignoreNames && t == ignoreTags && kindOf(dt) == MapKind && (seen != nil ==> s == seen)
+//@       ensures result != nil
+//@       modifies mapOf(s)
+//@   callspec hashUnion params a f n t s
+//@       requires* union.same.flags: a == dt.(*Union) && f == ignoreFields && n == ignoreNames && t == ignoreTags && kindOf(dt) == UnionKind && (seen != nil ==> s == seen)
+//@       ensures result != nil
+//@       modifies mapOf(s)
+//@   callspec hashObject params a f n t s
+//@       requires* object.same.flags: a == dt.(*Object) && f == ignoreFields && n == ignoreNames && t == ignoreTags && kindOf(dt) == ObjectKind && (seen != nil ==> s == seen)
+//@       ensures result != nil
+//@       modifies mapOf(s)
+//@   callspec hashUserType params a f n t s
+//@       requires* usertype.same.flags: a == dt && f == ignoreFields && n == ignoreNames && t == ignoreTags && (kindOf(dt) == UserTypeKind || kindOf(dt) == ResultTypeKind) && (seen != nil ==> s == seen)
+//@       ensures result != nil
+//@       modifies mapOf(s)
 //@   modifies mapOf(seen)
 
 //@ iface goa.design/goa/v3/expr.UserType.Name
@@ -232,13 +259,11 @@ package expr
 //@ func hashArray
 //@   params a ignoreFields ignoreNames ignoreTags seen
 //@   property C13
-//@   requires a != nil && a.ElemType != nil
 //@   ensures* shape: result != nil && load(result) == arrayPrefix + hashSpec(a.ElemType.Type, ignoreFields, ignoreNames, ignoreTags)
 
 //@ func hashMap
 //@   params m ignoreFields ignoreNames ignoreTags seen
 //@   property C13
-//@   requires m != nil && m.KeyType != nil && m.ElemType != nil
 //@   ensures* shape: result != nil && load(result) == mapPrefix + hashSpec(m.KeyType.Type, ignoreFields, ignoreNames, ignoreTags) + mapElemPrefix + hashSpec(m.ElemType.Type, ignoreFields, ignoreNames, ignoreTags)
 
 // The finalizers called on the payload, result and errors do not touch security data (ASSUMED frames).
@@ -295,8 +320,12 @@ package expr
 //@   params ma
 //@   locals nameMap reverseMap
 //@   ensures fresh: result != nil && fresh(result)
-//@   loop 1 invariant own: nameMap != nil && fresh(nameMap) && reverseMap != nil && fresh(reverseMap)
-//@   loop 2 invariant own: nameMap != nil && fresh(nameMap) && reverseMap != nil && fresh(reverseMap)
+//@   property C02
+//@   ensures* same.name.table: forall k String :: inMap(result.nameMap, k) == old(inMap(ma.nameMap, k)) && (inMap(result.nameMap, k) ==> result.nameMap[k] == old(ma.nameMap[k]))
+//@   ensures* same.reverse.table: forall e String :: inMap(result.reverseMap, e) == old(inMap(ma.reverseMap, e)) && (inMap(result.reverseMap, e) ==> result.reverseMap[e] == old(ma.reverseMap[e]))
+//@   ensures* own.tables: result.nameMap != nil && fresh(result.nameMap) && result.reverseMap != nil && fresh(result.reverseMap) && result.nameMap != result.reverseMap
+//@   loop 1 invariant own: nameMap != nil && fresh(nameMap) && reverseMap != nil && fresh(reverseMap) && nameMap != reverseMap && len(reverseMap) == 0 && (forall k String :: inMap(nameMap, k) == visited(k, 1) && (visited(k, 1) ==> inMap(ma.nameMap, k) && nameMap[k] == ma.nameMap[k]))
+//@   loop 2 invariant own: nameMap != nil && fresh(nameMap) && reverseMap != nil && fresh(reverseMap) && nameMap != reverseMap && (forall k String :: inMap(nameMap, k) == inMap(ma.nameMap, k) && (inMap(nameMap, k) ==> nameMap[k] == ma.nameMap[k])) && (forall e String :: inMap(reverseMap, e) == visited(e, 2) && (visited(e, 2) ==> inMap(ma.reverseMap, e) && reverseMap[e] == ma.reverseMap[e]))
 //@   modifies cell(GeneratedResultTypes), whole(elems(load(GeneratedResultTypes))), utAttr
 //@ func (*HTTPResponseExpr).Dup
 //@   params r
@@ -338,4 +367,106 @@ package expr
 //@   loop 8 invariant extends: ranged(3).arr <= alloc() && len(local(e).HTTPErrors) >= len(ranged(3)) && (local(e).HTTPErrors.arr != ranged(3).arr || local(e).HTTPErrors.off == ranged(3).off)
 //@   loop 9 modifies elems(*HTTPErrorExpr)
 //@   loop 9 invariant extends: ranged(3).arr <= alloc() && len(local(e).HTTPErrors) >= len(ranged(3)) && (local(e).HTTPErrors.arr != ranged(3).arr || local(e).HTTPErrors.off == ranged(3).off)
+//@   modifies all
+
+// ---- gRPC field numbers (C10) -------------------------------------------------------------------
+// "Every attribute [has] the field number chosen in the design with no number used twice in a message": a
+// message whose fields pass this validation without error has a field number on every (non-union) attribute
+// and no number on two of them. FieldTag and IsUnion are abstracted as functions of the attribute at the call.
+//@ smt (declare-fun rpcTagOf (Int) String)
+//@ smt (declare-fun hasRPCTag (Int) Bool)
+//@ smt (declare-fun isUnionSpec (Iface) Bool)
+//@ func validateRPCTags
+//@   params fields e
+//@   locals verr foundRPC
+//@   property C10
+//@   requires fields != nil
+//@   callspec (*AttributeExpr).FieldTag params a
+//@       ensures result0 == rpcTagOf(a) && result1 == hasRPCTag(a)
+//@       modifies nothing
+//@   callspec IsUnion params dt
+//@       ensures result == isUnionSpec(dt)
+//@       modifies nothing
+//@   let fs = old(load(fields))
+//@   ensures* every.field.numbered: result != nil && (len(result.Errors) == 0 ==> forall i int :: 0 <= i && i < len(fs) && !isUnionSpec(old(fs[i].Attribute.Type)) ==> hasRPCTag(old(fs[i].Attribute)))
+//@   ensures* no.number.twice: len(result.Errors) == 0 ==> forall i int, j int :: 0 <= i && i < j && j < len(fs) && !isUnionSpec(old(fs[i].Attribute.Type)) && !isUnionSpec(old(fs[j].Attribute.Type)) ==> rpcTagOf(old(fs[i].Attribute)) != rpcTagOf(old(fs[j].Attribute))
+//@   loop 1 invariant seen: verr != nil && sinceEntry(verr) && foundRPC != nil && sinceEntry(foundRPC) && (verr.Errors.arr == 0 || sinceEntry(verr.Errors)) && (verr.Expressions.arr == 0 || sinceEntry(verr.Expressions)) && ranged(1) == fs && (len(verr.Errors) == 0 ==> (forall i int :: 0 <= i && i <= rangeindex && !isUnionSpec(fs[i].Attribute.Type) ==> hasRPCTag(fs[i].Attribute) && inMap(foundRPC, rpcTagOf(fs[i].Attribute))) && (forall i int, j int :: 0 <= i && i < j && j <= rangeindex && !isUnionSpec(fs[i].Attribute.Type) && !isUnionSpec(fs[j].Attribute.Type) ==> rpcTagOf(fs[i].Attribute) != rpcTagOf(fs[j].Attribute)))
+//@   modifies nothing
+
+// ---- mapped attributes: attribute name <-> wire name (C02, C03) ----------------------------------
+// "Every attribute travels in exactly the location the design assigns it": the client encoder writes an
+// attribute under ElemName(attribute), the server decoder looks an element up under the same name and KeyName
+// maps a wire name back. The two tables are kept inverse: for every attribute k with a recorded wire name,
+// reverseMap[nameMap[k]] == k (tablesAgree); Map, Remap and DupMappedAtt establish or preserve it, ElemName and
+// KeyName read the tables they are documented to read, so KeyName(ElemName(k)) == k.
+//@ macro tablesAgree(ma) = forall k String :: inMap(ma.nameMap, k) ==> inMap(ma.reverseMap, ma.nameMap[k]) && ma.reverseMap[ma.nameMap[k]] == k
+//@ func (*MappedAttributeExpr).ElemName
+//@   params ma keyName
+//@   property C02
+//@   requires ma != nil
+//@   ensures* recorded.name: inMap(ma.nameMap, keyName) ==> result == ma.nameMap[keyName]
+//@   ensures* own.name.otherwise: !inMap(ma.nameMap, keyName) ==> result == keyName
+//@   modifies nothing
+//@ func (*MappedAttributeExpr).KeyName
+//@   params ma elemName
+//@   property C02
+//@   requires ma != nil
+//@   ensures* recorded.key: inMap(ma.reverseMap, elemName) ==> result == ma.reverseMap[elemName]
+//@   ensures* own.name.otherwise: !inMap(ma.reverseMap, elemName) ==> result == elemName
+//@   modifies nothing
+//@ func (*MappedAttributeExpr).Map
+//@   params ma elemName attName
+//@   property C02
+//@   requires ma != nil && ma.nameMap != nil && ma.reverseMap != nil && ma.nameMap != ma.reverseMap
+//@   ensures* both.tables: inMap(ma.nameMap, attName) && ma.nameMap[attName] == elemName && inMap(ma.reverseMap, elemName) && ma.reverseMap[elemName] == attName
+//@   ensures* others.kept: (forall k String :: k != attName ==> inMap(ma.nameMap, k) == old(inMap(ma.nameMap, k)) && ma.nameMap[k] == old(ma.nameMap[k])) && (forall e String :: e != elemName ==> inMap(ma.reverseMap, e) == old(inMap(ma.reverseMap, e)) && ma.reverseMap[e] == old(ma.reverseMap[e]))
+//@   modifies mapOf(ma.nameMap), mapOf(ma.reverseMap)
+//@ lemma c02_wire_name_round_trip property C02: forall nameIn Bool, revIn Bool, k String, e String, back String :: (nameIn ==> revIn && back == k) ==> (nameIn ==> ite(revIn, back, e) == k)
+//@ func AsObject
+//@   params dt
+//@   modifies nothing
+//@ func (*MappedAttributeExpr).Remap
+//@   params ma
+//@   locals elems
+//@   property C02
+//   -- "att:elem" records att -> elem in one table and elem -> att in the other, from the same split
+//@   at mapupdate MappedAttributeExpr.nameMap assert* attribute.to.wire: len(elems) > 1 && key == elems[0] && value == elems[1]
+//@   at mapupdate MappedAttributeExpr.reverseMap assert* wire.to.attribute: len(elems) > 1 && key == elems[1] && value == elems[0]
+//@   modifies all
+
+// ---- body = payload minus what is mapped elsewhere (C02, C03) ---------------------------------
+// The request/response body type is computed by deleting, one by one, the attributes carried by headers,
+// parameters and cookies. Delete removes exactly the named attribute: it is gone afterwards (attribute names of
+// an object are distinct), every other attribute stays, in order, and nothing is duplicated.
+//@ macro distinctNames(s) = forall i int, j int :: 0 <= i && i < j && j < len(s) ==> s[i].Name != s[j].Name
+//@ func (*Object).Delete
+//@   params o n
+//@   locals index
+//@   property C02
+//@   requires o != nil
+//@   let before = old(load(o))
+//@   let after = load(o)
+//@   ensures* absent.afterwards: old(distinctNames(load(o))) ==> forall i int :: 0 <= i && i < len(after) ==> after[i].Name != n
+//@   ensures* others.stay: (forall i int :: 0 <= i && i < len(before) ==> old(before[i].Name) != n) ==> len(after) == len(before) && (forall i int :: 0 <= i && i < len(before) ==> after[i] == old(before[i]))
+//@   ensures* one.removed: (exists i int :: 0 <= i && i < len(before) && old(before[i].Name) == n) ==> len(after) == len(before) - 1
+//@   loop 1 invariant scan: index == 0 - 1 && ranged(1) == before && (forall i int :: 0 <= i && i <= rangeindex ==> before[i].Name != n)
+//@   modifies cell(o), elems(load(o))
+//@ func (*ValidationExpr).RemoveRequired
+//@   params v required
+//@   property C02
+//@   requires v != nil
+//@   let before = old(v.Required)
+//@   ensures* absent.afterwards: (forall i int, j int :: 0 <= i && i < j && j < len(before) ==> old(before[i]) != old(before[j])) ==> forall i int :: 0 <= i && i < len(v.Required) ==> v.Required[i] != required
+//@   ensures* others.stay: (forall i int :: 0 <= i && i < len(before) ==> old(before[i]) != required) ==> len(v.Required) == len(before) && (forall i int :: 0 <= i && i < len(before) ==> v.Required[i] == old(before[i]))
+//@   loop 1 invariant scan: ranged(1) == before && v.Required == before && (forall i int :: 0 <= i && i <= rangeindex ==> before[i] != required)
+//@   modifies v.Required, elems(v.Required)
+// removeAttribute: the attribute is gone from the body object and from its required list (wire-name tables
+// and examples are updated by calls that are not specified here).
+//@ func removeAttributes
+//@   params attr sub
+//@   locals nat
+//@   property C02
+//@   callspec removeAttribute params a name
+//@       requires* removes.the.mapped.attribute: a == attr && name == nat.Name
+//@       modifies all
 //@   modifies all
